@@ -102,8 +102,20 @@ func (g *gen) script() []Call {
 		ft := m.FuncTypeOf(e.idx)
 		for k, p := range ft.Params {
 			if k == 0 && len(e.name) > 5 && e.name[:5] == "tramp" {
-				// slot argument: every slot, plus out-of-range
-				c.Args = append(c.Args, Value{I32, uint64(uint32(g.intn("slotarg", 0, len(g.slots)+1)))})
+				// slot argument: every slot, plus out-of-range; the outcome is
+				// known from the slot map
+				slot := g.intn("slotarg", 0, len(g.slots)+1)
+				c.Args = append(c.Args, Value{I32, uint64(uint32(slot))})
+				var ti uint32
+				fmt.Sscanf(e.name, "tramp%d", &ti)
+				switch {
+				case slot >= len(g.slots):
+					c.ExpectTrap = "indirectOOB"
+				case g.slots[slot] < 0:
+					c.ExpectTrap = "indirectNull"
+				case !m.FuncTypeOf(uint32(g.slots[slot])).Equal(m.Types[ti].Type):
+					c.ExpectTrap = "indirectSig"
+				}
 				continue
 			}
 			c.Args = append(c.Args, g.argValue(p))
